@@ -162,12 +162,22 @@ def run_evolve(case, ctx):
     order = pr.choice([1, 1, 2, 2, 4]) if not commuting else pr.choice([1, 2, 4])
     steps = pr.randint(1, 4)
     tdict = pr.random() < 0.35
+    resonant = case["i"] % 5 == 1
+    if resonant:
+        # coefficient x time is an exact multiple of pi (typical of phase-estimation settings): exp(-i k pi P) = (-1)^k, not the identity
+        terms = {t: pr.choice([0.5, -0.5, 1.0, 0.25, -1.5, 2.0]) for t in terms}
+        op = gen.to_qubit_operator(terms)
+        terms = gen.terms_of(op)
+        steps = pr.choice([1, 1, 2])
+        tdict = False
     if tdict:
         time = {t: pr.uniform(-1.2, 1.2) for t in terms}
         eff = {t: c * time[t] for t, c in terms.items()}
         tt = 1.0
     else:
         tt = pr.choice([pr.uniform(-1.5, 1.5), 0.05, 1, np.float64(0.4)])
+        if resonant:
+            tt = steps * pr.choice([2 * math.pi, math.pi, -2 * math.pi, 4 * math.pi, 6 * math.pi])
         time = tt
         eff = {t: c * tt for t, c in terms.items()}
     ctrl_kind = pr.choice(["none", "none", "int", "list1", "list2", "list2_with0"])
@@ -211,6 +221,9 @@ def run_evolve(case, ctx):
         elif order == 2:
             ctx.check("trotter_bound_order2", err <= b2 + slack, f"second-order product formula error {err:.3e} exceeds the commutator bound {b2:.3e}",
                       lambda: dict(wit(), error=err, bound=b2))
+        elif err > 0.05:
+            # far from the asymptotic regime (large time step): halving the step says nothing about the order
+            ctx.note("order4_not_asymptotic_skipped")
         else:
             circ2, phase2 = trotterize(op_s, time=time_s, n_trotter_steps=2 * steps, trotter_order=order, control=ctrl, return_phase=True)
             err2 = float(np.linalg.norm(circ_unitary(circ2, n_tot) * phase2 - exact, 2))
@@ -250,9 +263,34 @@ def run_fermion(case, ctx):
         fop.terms[t] = c
     opts = {"up_then_down": utd, "qubit_mapping": mapping, "n_spinorbitals": n, "n_electrons": ne}
     snapshot = dict(fop.terms)
-    circ, phase = trotterize(fop, time=tt, n_trotter_steps=steps, trotter_order=order, mapping_options=opts, return_phase=True)
+    use_dict = case["i"] % 3 == 1
+    if use_dict:
+        # per-term times; a term and its Hermitian conjugate share their time so that the effective generator stays Hermitian
+        tdict = {}
+        for t in fop.terms:
+            tc = tuple((p, 1 - d) for p, d in reversed(t))
+            key = min(t, tc)
+            if key not in tdict:
+                tdict[key] = pr.uniform(-1.0, 1.0)
+        time_arg = {t: tdict[min(t, tuple((p, 1 - d) for p, d in reversed(t)))] for t in fop.terms}
+        H = {t: c * time_arg[t] for t, c in H.items()}
+        for t in list(fop.terms):
+            pass
+        tt_eff = 1.0
+    else:
+        time_arg = tt
+        tt_eff = tt
+    circ, phase = trotterize(fop, time=time_arg, n_trotter_steps=steps, trotter_order=order, mapping_options=opts, return_phase=True)
+    if use_dict:
+        # from here on the reference generator is H_eff = sum_t c_t * time_t * term (evolved for unit time)
+        fop = FermionOperator()
+        for t, c in H.items():
+            fop.terms[t] = c
+        snapshot = dict(fop.terms)
+        tt = 1.0
     nq = get_qubit_number(mapping, n)
-    wit = {"n_orb": n_orb, "mapping": mapping, "up_then_down": utd, "n_electrons": ne, "order": order, "steps": steps, "time": tt, "seed_case": case["i"]}
+    wit = {"n_orb": n_orb, "mapping": mapping, "up_then_down": utd, "n_electrons": ne, "order": order, "steps": steps, "time": tt, "seed_case": case["i"],
+           "per_term_time_dictionary": use_dict}
     ctx.check("fermionic_evolution", dict(fop.terms) == snapshot, "trotterize modified its input operator", wit)
     if nq == 0 or circ.width > nq:
         ctx.check("fermionic_evolution", circ.width <= nq, "fermionic time-evolution circuit is wider than the encoding's register", dict(wit, width=circ.width))
